@@ -1,12 +1,12 @@
 SPECIFICATION Spec
 CONSTANTS
-  KindNames = {"ka", "kb"}
+  KindNames = {"ka"}
   TypeNames = {"set", "status"}
   ReqRoles = {0, 1, 2, 3, 4}
   OneTable = FALSE
   WFs = {"yes", "no", "maybe"}
   StaleRoles = {2}
-  MaxReq = 2
+  MaxReq = 3
   ExportScripts = FALSE
 VIEW View
 CHECK_DEADLOCK FALSE
